@@ -186,6 +186,8 @@ def check_c11(tier):
 
 
 def _short(e):
+    if e["t"] == "Write":
+        return "Write"
     if e["t"] == "Sc":
         return f"{e['s']}#{e['cur']}:{e['k']}" + (str(e["i"]) if e["i"] else "")
     if e["t"] in ("FeatS", "FeatF"):
@@ -199,3 +201,273 @@ def replay_c11(payload):
     rec = payload["record"]
     recs, verdicts, _ = c11_conform([rec], tag="c11replay")
     return recs, verdicts
+
+
+# ---------------------------------------------------------------------------
+# C12 (Summarize) and the writer half of C01
+# ---------------------------------------------------------------------------
+
+SUM_PIPELINES = ["sn", "snb", "lt", "tee", "orl", "orr", "fos:sn", "rep:sn", "fos:rep:sn", "fos:lt",
+                 "rep:tee", "fos:tee", "fos:orl"]
+
+# (universe, HasBefore, HasAfter, NotFoundToo, MaxErr, Truncate, Replay)
+SUM_MC = {
+    "quick": [("US1", "TRUE", "FALSE", "TRUE", 1, "FALSE", "TRUE"),
+              ("US1", "FALSE", "TRUE", "FALSE", 0, "TRUE", "FALSE"),
+              ("US3", "TRUE", "TRUE", "TRUE", 1, "FALSE", "TRUE")],
+    "thorough": [("US1", "TRUE", "TRUE", "TRUE", 1, "FALSE", "TRUE"),
+                 ("US1", "TRUE", "TRUE", "FALSE", 0, "TRUE", "FALSE"),
+                 ("US2", "TRUE", "FALSE", "TRUE", 1, "FALSE", "TRUE"),
+                 ("US2", "FALSE", "TRUE", "TRUE", 0, "TRUE", "TRUE"),
+                 ("US3", "TRUE", "TRUE", "TRUE", 1, "TRUE", "TRUE")],
+}
+# (universe, HasBefore, HasAfter, NotFoundToo, MaxErr, Truncate, Replay, num)
+SUM_GEN = {
+    "quick": [("US1", "TRUE", "TRUE", "FALSE", 1, "FALSE", "TRUE", 250),
+              ("US1", "TRUE", "FALSE", "TRUE", 0, "TRUE", "FALSE", 120),
+              ("US2", "TRUE", "TRUE", "FALSE", 1, "FALSE", "TRUE", 250),
+              ("US2", "FALSE", "FALSE", "TRUE", 0, "FALSE", "FALSE", 120),
+              ("US3", "FALSE", "TRUE", "FALSE", 1, "FALSE", "TRUE", 200)],
+    "thorough": [("US1", "TRUE", "TRUE", "FALSE", 1, "FALSE", "TRUE", 5000),
+                 ("US1", "TRUE", "TRUE", "TRUE", 1, "TRUE", "TRUE", 3000),
+                 ("US1", "FALSE", "FALSE", "TRUE", 0, "FALSE", "FALSE", 2000),
+                 ("US2", "TRUE", "TRUE", "FALSE", 1, "FALSE", "TRUE", 5000),
+                 ("US2", "FALSE", "TRUE", "TRUE", 1, "TRUE", "TRUE", 3000),
+                 ("US3", "TRUE", "TRUE", "FALSE", 1, "FALSE", "TRUE", 4000),
+                 ("US3", "FALSE", "FALSE", "TRUE", 0, "TRUE", "FALSE", 2000)],
+}
+
+
+def _sum_consts(uni, hb, ha, nf, maxerr, trunc, replay):
+    return [("U", "<- " + uni), ("HasBefore", "= " + hb), ("HasAfter", "= " + ha),
+            ("NotFoundToo", "= " + nf), ("MaxErr", f"= {maxerr}"), ("Truncate", "= " + trunc),
+            ("Replay", "= " + replay)]
+
+
+def run_summarize_engine(tier):
+    from common import cache_get, cache_put
+    cached = cache_get("summarize", tier)
+    if cached:
+        log("[summarize] using cached engine result")
+        return cached
+    t0 = time.time()
+    mcs = []
+    for n, c in enumerate(SUM_MC[tier]):
+        cfg = os.path.join(WORK, f"MC_Summarize_{n}.cfg")
+        _cfg(cfg, "Spec", _sum_consts(*c),
+             invs=("StepCountersAgree", "ScenariosAgree", "VerdictAgrees", "ExactWithoutRetries", "OneSummary"))
+        r = tlc("MC_Summarize.tla", cfg, workers=8, timeout=3000, tag=f"mcsum{n}")
+        require_ok(r, f"MC_Summarize {c}")
+        if r["violated"]:
+            raise ToolError(f"MC_Summarize {c}: {r['violated']} violated: the code's indicator machine "
+                            "differs from the declarative counters outside the named shapes "
+                            "(specification defect or a new finding to classify):\n"
+                            + "\n".join(r["out"].splitlines()[-60:]))
+        mcs.append({"cfg": f"MC_Summarize[{','.join(map(str, c))}]", "states": r.get("states", 0),
+                    "distinct": r.get("distinct", 0), "depth": r.get("depth", 0), "wall_s": r["wall_s"],
+                    "invariants": ["StepCountersAgree", "ScenariosAgree (modulo F1/F4a/F4b)",
+                                   "VerdictAgrees (modulo F1/F4)", "ExactWithoutRetries", "OneSummary"]})
+        log(f"[C12] MC {c[0]}: {r.get('distinct')} distinct, {r['wall_s']}s")
+    streams = []
+    gens = []
+    for n, c in enumerate(SUM_GEN[tier]):
+        cfg = os.path.join(WORK, f"Gen_Summarize_{n}.cfg")
+        _cfg(cfg, "Spec", _sum_consts(*c[:7]), invs=("Dump",))
+        r = tlc("Gen_Summarize.tla", cfg, workers=1,
+                simulate={"num": c[7], "depth": 300, "seed": seed() * 1000 + 77 + n},
+                timeout=1800, tag=f"gensum{n}")
+        require_ok(r, f"Gen_Summarize {c}")
+        got = tlc_lines(r["out"], "REPLAY")
+        for k, g in enumerate(got):
+            g["id"] = f"{c[0]}.{n}.{k}"
+            g["pipelines"] = SUM_PIPELINES
+        gens.append({"universe": c[0], "consts": list(c[1:7]), "behaviours": len(got), "wall_s": r["wall_s"]})
+        streams.extend(got)
+    # group by universe: Trace_Summarize takes U from the first record
+    by_uni = {}
+    for s in streams:
+        by_uni.setdefault(json.dumps(s["universe"], sort_keys=True), []).append(s)
+    verdicts = {}
+    recs_all = {}
+    for k, (_, group) in enumerate(sorted(by_uni.items())):
+        inp = os.path.join(WORK, f"sum_in_{k}.ndjson")
+        outp = os.path.join(WORK, f"sum_out_{k}.ndjson")
+        write_ndjson(inp, group)
+        run_harness(["replay-summarize", inp, outp])
+        recs = read_ndjson(outp)
+        r = tlc("Trace_Summarize.tla", os.path.join(SPEC, "Trace_Summarize.cfg"), workers=1,
+                env={"TRACE": outp}, timeout=3000, tag=f"trsum{k}", xss=True, heap="6g")
+        require_ok(r, "Trace_Summarize")
+        vs = tlc_lines(r["out"], "VERDICT")
+        if len(vs) != len(recs):
+            raise ToolError(f"Trace_Summarize judged {len(vs)} of {len(recs)} streams")
+        for v in vs:
+            verdicts[v["id"]] = v
+        for rec in recs:
+            recs_all[rec["id"]] = rec
+    res = {"mcs": mcs, "gens": gens, "n": len(streams),
+           "events": sum(len(s["stream"]) for s in streams),
+           "verdicts": list(verdicts.values()),
+           "panics": [{"id": i, "panic": r["panic"]} for i, r in recs_all.items() if r.get("panic")],
+           "stats": {"retried": sum(1 for r in recs_all.values() if r["actual"]["retried_steps"] > 0),
+                     "hookerr": sum(1 for r in recs_all.values() if r["actual"]["hook_errors"] > 0),
+                     "failed": sum(1 for r in recs_all.values() if r["actual"]["failed"]),
+                     "distinct": len({json.dumps(s["stream"], sort_keys=True) for s in streams})},
+           "bad": {i: {"universe": recs_all[i]["universe"], "stream": recs_all[i]["stream"],
+                       "actual": recs_all[i]["actual"], "verdicts": recs_all[i]["verdicts"],
+                       "summary": recs_all[i].get("summary")}
+                   for i, v in list(verdicts.items()) if v["viol"]},
+           "sample": {k: recs_all[streams[len(streams) // 3]["id"]][k]
+                      for k in ("id", "actual", "log", "summary")},
+           "sample_stream": [_short(e) for e in streams[len(streams) // 3]["stream"]],
+           "wall_s": time.time() - t0}
+    # bound the size of what is cached
+    if len(res["bad"]) > 300:
+        keep = list(res["bad"])[:300]
+        res["bad"] = {k: res["bad"][k] for k in keep}
+    cache_put("summarize", tier, res)
+    return res
+
+
+def _sum_violations(res, prop):
+    out = []
+    for v in res["verdicts"]:
+        for viol in v["viol"]:
+            if viol[0] != prop:
+                continue
+            shape = viol[2] if prop == "C12" else ""
+            sig = f"{prop}:{viol[1]}" + (f":{shape}" if shape else "")
+            out.append({"sig": sig,
+                        "what": f"{viol[1]} ({viol[2]}) on stream {v['id']}",
+                        "replay": {"property": prop, "rule": viol[1], "detail": viol[2],
+                                   "record": res["bad"].get(v["id"])}})
+    for p in res["panics"]:
+        if prop == "C12":
+            out.append({"sig": "C12:summarize-panicked", "what": f"Summarize panicked: {p['panic']}",
+                        "replay": {"property": "C12", "record": res["bad"].get(p["id"])}})
+    return out
+
+
+def check_c12(tier):
+    t0 = time.time()
+    res = run_summarize_engine(tier)
+    cov = {
+        "states": sum(m["states"] for m in res["mcs"]),
+        "distinct_states": sum(m["distinct"] for m in res["mcs"]),
+        "transitions": sum(m["states"] for m in res["mcs"]),
+        "exhaustive": True, "mc_configs": res["mcs"], "generators": res["gens"],
+        "checker_cmd": "tlc MC_Summarize.tla ; tlc -simulate Gen_Summarize.tla ; harness replay-summarize ; "
+                       "tlc -workers 1 Trace_Summarize.tla",
+        "traces_validated_against_impl": res["n"], "trace_events": res["events"],
+        "evaluations": res["n"],
+        "distinct_nontrivial": res["stats"]["retried"] + res["stats"]["hookerr"],
+        "rule": "streams are sampled by TLC (-simulate) from SeqGen.tla; counted non-trivial if the real "
+                "Summarize ended with retried_steps > 0 (plus those with hook_errors > 0): only such "
+                "streams can distinguish a last attempt from an earlier one; "
+                f"{res['stats']['distinct']} of the streams are pairwise distinct",
+        "samples": [{"stream": res["sample_stream"], "real_summarize": res["sample"]}],
+    }
+    return {"level": "model_checking", "coverage": cov, "violations": _sum_violations(res, "C12"),
+            "assumptions": ["TLC 1.8.0; MC_Summarize is exhaustive for its universes only",
+                            "streams are sequential contract-abiding streams generated by TLC from SeqGen.tla",
+                            "features/rules counters are read back from the summary text (the only place they are visible)",
+                            "harness recording writer and projection trusted"],
+            "wall_s": time.time() - t0}
+
+
+# ---------------------------------------------------------------------------
+# C13 (combinators)
+# ---------------------------------------------------------------------------
+
+C13_LEN = {"quick": 3, "thorough": 4}
+C13_SIM = {"quick": (400, 7), "thorough": (6000, 9)}
+
+
+def check_c13(tier):
+    t0 = time.time()
+    inputs = []
+    gens = []
+    cfg = os.path.join(WORK, "Gen_Combinators_bfs.cfg")
+    _cfg(cfg, "Spec", [("U", "<- UK"), ("MaxLen", f"= {C13_LEN[tier]}")], invs=("Dump",))
+    r = tlc("Gen_Combinators.tla", cfg, workers=1, timeout=3000, tag="gencomb")
+    require_ok(r, "Gen_Combinators bfs")
+    got = tlc_lines(r["out"], "REPLAY")
+    gens.append({"mode": "exhaustive", "max_len": C13_LEN[tier], "sequences": len(got),
+                 "states": r.get("distinct", 0), "wall_s": r["wall_s"]})
+    states = r.get("states", 0)
+    distinct = r.get("distinct", 0)
+    inputs.extend(got)
+    num, depth = C13_SIM[tier]
+    cfg = os.path.join(WORK, "Gen_Combinators_sim.cfg")
+    _cfg(cfg, "Spec", [("U", "<- UK"), ("MaxLen", f"= {depth}")], invs=("Dump",))
+    r = tlc("Gen_Combinators.tla", cfg, workers=1, simulate={"num": num, "depth": depth + 1,
+                                                            "seed": seed() * 1000 + 13},
+            timeout=3000, tag="gencombsim")
+    require_ok(r, "Gen_Combinators sim")
+    got = [g for g in tlc_lines(r["out"], "REPLAY") if len(g["inp"]) == depth]
+    gens.append({"mode": "simulate", "len": depth, "sequences": len(got), "wall_s": r["wall_s"]})
+    inputs.extend(got)
+    for k, g in enumerate(inputs):
+        g["id"] = f"k{k}"
+    inp = os.path.join(WORK, "comb_in.ndjson")
+    outp = os.path.join(WORK, "comb_out.ndjson")
+    write_ndjson(inp, inputs)
+    run_harness(["replay-comb", inp, outp])
+    recs = read_ndjson(outp)
+    r = tlc("Trace_Combinators.tla", os.path.join(SPEC, "Trace_Combinators.cfg"), workers=1,
+            env={"TRACE": outp}, timeout=3000, tag="trcomb", xss=True, heap="6g")
+    require_ok(r, "Trace_Combinators")
+    vs = tlc_lines(r["out"], "VERDICT")
+    if len(vs) != len(recs):
+        raise ToolError(f"Trace_Combinators judged {len(vs)} of {len(recs)} inputs")
+    byid = {x["id"]: x for x in recs}
+    violations = []
+    for v in vs:
+        if v["bad"] or v["panic"]:
+            what = (f"nesting {v['bad'][0][0]}: {v['bad'][0][1]} differs" if v["bad"]
+                    else "combinator panicked: " + v["panic"])
+            violations.append({"sig": "C13:" + (v["bad"][0][0] if v["bad"] else "panic"),
+                               "what": what + f" (input {v['id']})",
+                               "replay": {"property": "C13", "verdict": v,
+                                          "record": {"universe": byid[v["id"]]["universe"],
+                                                     "inp": byid[v["id"]]["inp"],
+                                                     "results": byid[v["id"]]["results"]}}})
+    nontrivial = sum(1 for x in inputs
+                     if any(e["k"] == "StepSk" for e in x["inp"]) or
+                     (any(e["t"] == "Finished" for e in x["inp"]) and
+                      any(e["k"] in ("StepF", "HookF") or e["t"] == "ParseErr" for e in x["inp"])))
+    sample = recs[len(recs) // 2]
+    cov = {
+        "states": states, "distinct_states": distinct, "transitions": states, "exhaustive": True,
+        "generators": gens, "nestings": sorted(sample["results"].keys()),
+        "checker_cmd": "tlc Gen_Combinators.tla (BFS: all sequences up to MaxLen; plus -simulate) ; "
+                       "harness replay-comb ; tlc -workers 1 Trace_Combinators.tla",
+        "traces_validated_against_impl": len(vs),
+        "comparisons": len(vs) * len(sample["results"]),
+        "evaluations": len(vs),
+        "distinct_nontrivial": nontrivial,
+        "rule": "inputs are all sequences over the 16-symbol alphabet of Gen_Combinators.tla up to MaxLen "
+                "(distinct by construction) plus simulated longer ones; non-trivial if the input contains a "
+                "Skipped step (rewrite can apply) or a run-Finished together with a repeatable failure",
+        "samples": [{"input": [_short(e) for e in sample["inp"]],
+                     "leaves_of_fos_rep_failed": [[_short(e) for e in leaf]
+                                                   for leaf in sample["results"]["fos_rep_failed"]["leaves"]],
+                     "stats_of_or": sample["results"]["or"]["stats"]}],
+    }
+    return {"level": "model_checking", "coverage": cov, "violations": violations,
+            "assumptions": ["TLC enumerates every input sequence up to MaxLen over the alphabet; longer inputs are sampled",
+                            "the recording leaf writer implements Stats by counting what it received",
+                            "nestings that do not type-check (Repeat around a transforming writer, Repeat around Repeat) are out of scope"],
+            "wall_s": time.time() - t0}
+
+
+def c01_writer_side(tier):
+    """Violations and coverage of the stats-pipeline verdicts on TLC-generated streams."""
+    res = run_summarize_engine(tier)
+    viols = _sum_violations(res, "C01")
+    npipe = len(SUM_PIPELINES)
+    cov = {"streams_replayed_into_pipelines": res["n"], "pipelines": SUM_PIPELINES,
+           "verdicts_compared": res["n"] * npipe,
+           "streams_with_failed_verdict": res["stats"]["failed"],
+           "mc_configs": res["mcs"]}
+    return viols, cov
